@@ -424,7 +424,7 @@ def prologue_checks(ctx):
 
 
 @rule("R08.6", "C08", "resource lint: locals of the bundled routines are pairwise disjoint (flat IL namespace); bodies that use operands take the bundle; prologue rule for pkt/hi", min_instances=12)
-def r08_6(ctx):
+def r08_6(ctx, namespacing=True):
     idx = get_index(ctx.env)
     p = ctx.env.repo / "Resources" / "Hexagon" / "sub_routines.json"
     ctx.need(p.is_file(), f"anchor missing: {p}")
@@ -437,6 +437,10 @@ def r08_6(ctx):
         ls = set(decl_re.findall(r["code"]))
         params = {q.split()[-1].lstrip("*") for q in r["params"]}
         locals_[name] = ls
+        # the IL variables of a body share one flat name space with those of its callers: a local carries its routine's name, so that
+        # no behaviour's own variable (mask, length, n, x ...) is overwritten by a call
+        for v in (sorted(ls) if namespacing else ()):
+            ctx.check(f"routine {name}: local {v} carries the routine's name", v.startswith(name + "_"), f"{name}_<name>", v, rel)
         clash = sorted(ls & special)
         ctx.check(f"routine {name}: locals do not shadow special identifiers", not clash, "disjoint from EA/i/j/k/ret_val/jump_*", str(clash), rel)
         uses_ops = bool(re.search(r"\b[RPCMNVQ][a-z]{1,2}[VN]\b|HEX_REG_ALIAS_|\b[a-zA-Z]iV\b", r["code"]))
